@@ -17,7 +17,7 @@ import torch
 from hypothesis import strategies as st
 
 from vt import tt
-from vt.cmp import arr, maxabs
+from vt.cmp import arr
 from vt.gen.basic import fl, logu
 from vt.runner import Res, Sub, raises_kind
 
@@ -147,6 +147,51 @@ def newick_from(names, joins):
         b = items.pop(j % len(items))
         items.append("(%s,%s)" % (a, b))
     return items[0] + ";"
+
+
+def parse_newick(nw):
+    """nested lists of leaf names for the restricted newick this module writes: (a,(b,c));"""
+    pos = [0]
+
+    def node():
+        if nw[pos[0]] == "(":
+            pos[0] += 1
+            kids = [node()]
+            while nw[pos[0]] == ",":
+                pos[0] += 1
+                kids.append(node())
+            pos[0] += 1  # ")"
+            return kids
+        j = pos[0]
+        while nw[j] not in ",();":
+            j += 1
+        name = nw[pos[0]:j]
+        pos[0] = j
+        return name
+
+    return node()
+
+
+def parent_map(tree):
+    """parent[i] of every node under the documented numbering (DESIGN A.1): leaf = position in the Taxa list,
+    internal nodes n..2n-2 in post-order with children left to right, root = 2n-2"""
+    n = tree["n"]
+    leaf = {nm: i for i, nm in enumerate(tree["taxa"])}
+    parent = {}
+    counter = [n]
+
+    def visit(nd):
+        if isinstance(nd, str):
+            return leaf[nd]
+        kids = [visit(k) for k in nd]
+        me = counter[0]
+        counter[0] += 1
+        for k in kids:
+            parent[k] = me
+        return me
+
+    root = visit(parse_newick(tree["newick"]))
+    return parent, root
 
 
 @st.composite
@@ -310,7 +355,7 @@ def _fail(res, aspect, what, detail, exc=None):
     res.fail(kind, detail, aspect=aspect)
 
 
-def check_transform(res, cls, T, X, batch, labels, forward_ref=None):
+def check_transform(res, cls, T, X, batch, labels, forward_ref=None, sort_forward=False):
     """aspects forward / ladj / inverse / batched_* of one transform object at the points X (rows)"""
     outmap = _outmap(cls)
     rows = X.reshape(-1, X.shape[-1]) if batch else X.reshape(1, -1)
@@ -327,7 +372,7 @@ def check_transform(res, cls, T, X, batch, labels, forward_ref=None):
             return None
         if forward_ref is not None:
             ref = forward_ref(arr(x1))
-            if ref is not None and not _close(y1, ref, 1e-11):
+            if ref is not None and not _close(torch.sort(y1)[0] if sort_forward else y1, ref, 1e-11):
                 _fail(res, "forward", "mismatch", dict(d, y=y1.tolist(), documented=np.asarray(ref).tolist()))
         J = _jac(T, x1, outmap)
         o = oracle_logdet(J)
@@ -397,25 +442,30 @@ def check_transform(res, cls, T, X, batch, labels, forward_ref=None):
     return per
 
 
-def check_tp(res, tp, setx, X, X2, stage_labels=("initial", "updated")):
+def check_tp(res, tp, setx, X, X2):
     """(3) TransformedParameter() returns the transform's log-Jacobian for its current value, and .tensor the
-    transformed current value; then the value is updated through the public setter and both are asked again"""
+    transformed current value; the value is then updated through the public setter of x and both are asked
+    again - once with the call first and once with .tensor first, because either may have to refresh the cache"""
     T = tp.transform
-    for stage, x in zip(stage_labels, (X, X2)):
-        if stage == "updated":
+    for stage, x, call_first in (("initial", X, True), ("updated", X2, True), ("updated_again", X, False)):
+        if stage != "initial":
             setx(x)
         d = {"stage": stage, "x": x.tolist()}
+        got = val = e2 = ev = None
+        for what in (("call", "value") if call_first else ("value", "call")):
+            if what == "call":
+                got, e2 = _try(lambda: tp())
+            else:
+                val, ev = _try(lambda: tp.tensor)
         y, e = _try(lambda: T(x))
         if e is not None or _notprov(y):
             return
-        val, e = _try(lambda: tp.tensor)
-        if e is not None or _notprov(val):
-            _fail(res, "tp_value", "not_provided", d, e)
+        if ev is not None or _notprov(val):
+            _fail(res, "tp_value", "not_provided", d, ev)
             return
         if not _close(val, y):
             _fail(res, "tp_value", "mismatch:" + stage, dict(d, tensor=val.tolist(), expected=y.tolist()))
         want, e = _try(lambda: T.log_abs_det_jacobian(x, y))
-        got, e2 = _try(lambda: tp())
         if _notprov(want) or e is not None:
             # nothing is reported by the transform; the call must then fail the same way, not invent a value
             if e2 is None and not _notprov(got):
@@ -491,7 +541,8 @@ def vector_spec(c):
          "transform": cls if c.get("short") else FULL[cls]}
     p = c["par"]
     if cls == "AffineTransform":
-        s["parameters"] = {"loc": tt.P("loc", [p["loc"]]) if p["loc_param"] else p["loc"], "scale": p["scale"]}
+        # keys deliberately not in the order of the constructor's signature: arguments are matched by name
+        s["parameters"] = {"scale": p["scale"], "loc": tt.P("loc", [p["loc"]]) if p["loc_param"] else p["loc"]}
     elif cls == "PowerTransform":
         s["parameters"] = {"exponent": p["exponent"]}
     elif cls == "LinearTransform":
@@ -601,8 +652,8 @@ def body_heights(c):
     if type(T).__name__ != cls or (param != "shift_k" and type(model.transform).__name__ != cls):
         _fail(res, "build", "class", {"built": [type(T).__name__, type(model.transform).__name__]})
         return res
-    per = check_transform(res, cls, T, X, batch, labels)
-    per2 = check_transform(res, cls, T, X2, batch, labels)
+    check_transform(res, cls, T, X, batch, labels)
+    check_transform(res, cls, T, X2, batch, labels)
     # (4) the tree model's call = log-Jacobian of its own height transform for the current value
     if param != "shift_k":
         outmap = _outmap(cls)
@@ -652,8 +703,17 @@ def body_rates(c):
         tspec["parameters"]["rate"] = tt.P("mu", [c["mu"]])
     tp, _ = tt.build(tspec, dic)
     T = tp.transform
-    check_transform(res, cls, T, X, batch, labels)
-    check_transform(res, cls, T, X2, batch, labels)
+    ref = None
+    if cls == "LogDifferenceRateTransform":
+        # documented: y_i = log r_i - log r_parent(i) with the root's rate 1; the order of the outputs is not
+        # documented, so the comparison is between sorted values (a multiset)
+        parent, root = parent_map(tree)
+
+        def ref(x):
+            r = np.append(np.log(x), 0.0)
+            return np.sort([r[i] - r[parent[i]] for i in range(2 * n - 2)])
+    check_transform(res, cls, T, X, batch, labels, ref, sort_forward=True)
+    check_transform(res, cls, T, X2, batch, labels, ref, sort_forward=True)
     check_tp(res, tp, _setter(dic, ["x"], [slice(None)]), X, X2)
     res.labels = tuple(sorted(labels))
     return res
@@ -674,6 +734,8 @@ def selftest():
     assert newick_from(["a", "b", "c"], [[0, 0], [0, 0]]) == "(c,(a,b));"
     assert _reduce(torch.zeros(3), (3,)).shape == () and _reduce(torch.zeros(()), (3,)).shape == ()
     assert _reduce(torch.zeros(2), (3,)) is None
+    t = {"n": 3, "newick": "(c,(a,b));", "taxa": ["a", "b", "c"]}
+    assert parse_newick(t["newick"]) == ["c", ["a", "b"]] and parent_map(t) == ({0: 3, 1: 3, 2: 4, 3: 4}, 4)
 
 
 def _vec_pretags(c):
@@ -687,9 +749,9 @@ def _h_pretags(c):
 def subchecks(tier):
     max_n = 16 if tier == "quick" else 24
     return [
-        Sub("vector", body_vector, strategy=vector_cases, quick=1600, thorough=40000, pretags=_vec_pretags),
-        Sub("heights", body_heights, strategy=lambda: height_cases(max_n), quick=500, thorough=12000,
+        Sub("vector", body_vector, strategy=vector_cases, quick=3000, thorough=48000, pretags=_vec_pretags),
+        Sub("heights", body_heights, strategy=lambda: height_cases(max_n), quick=1000, thorough=16000,
             pretags=_h_pretags),
-        Sub("rates", body_rates, strategy=lambda: rate_cases(min(max_n, 12)), quick=300, thorough=6000,
+        Sub("rates", body_rates, strategy=lambda: rate_cases(min(max_n, 12)), quick=500, thorough=8000,
             pretags=_vec_pretags),
     ]
